@@ -6,7 +6,7 @@
    [sw_law_assoc] (the law is associative on curve points), [sw_killed_by F a b (m * r)]
    (every curve point is killed by m r: #E = h r for m = h; exponent of E divides h_eff r). *)
 From V Require Import Base.Field C03.CurveExec C03.SWProofs C03.FieldHyp
-  C03.TEProofs C12.SubgroupModel C12.GroupProofs C12.SWSubgroupProofs C12.TESubgroupProofs.
+  C03.TEProofs C12.SubgroupModel C12.GroupProofs C12.SWSubgroupProofs C12.TESubgroupProofs C12.BPProofs.
 
 (* double-and-add over an abstract group given through representatives *)
 Theorem C12_double_and_add_abstract :
@@ -115,6 +115,26 @@ Theorem C12_bls_g1_test_iff : forall T (F : Fops T) (a b : T), good_field F -> s
    ~ (sw_nsmul F a (Z.to_nat xabs) P = P /\ P <> None) /\
    endo_aff F beta P = aff_neg_sw F (sw_nsmul F a (Z.to_nat xabs) (sw_nsmul F a (Z.to_nat xabs) P))).
 Proof. exact (fun T F a b G H => bls_g1_test_iff F a b G H). Qed.
+
+(* Budroni-Pintore clearing (G2 of bls12_381 in both crates, bls12_377; a = 0, c = the
+   coefficient of double_p_power_endomorphism with c^3 = 1): for EVERY curve point the coded
+   sequence equals psi2(2P) + [x]([x]P + psi P) - [x]P - psi P - P and stays on the curve.
+   PARTIAL: the full statement is
+     bp_clear F 0 psi c |x| xneg P = sw_nsmul F 0 (Z.to_nat h_eff) P  /\  r * (bp_clear ... P) = O
+   with h_eff = 3 (x^2 - 1) h2 (RFC 9380 8.8.2); the missing step (psi^2 - t psi + q = 0 on E' and
+   the structure of E'(F_q^2), eprint 2017/419) is not formalised; the correspondence check compares
+   the coded map with [h_eff]P on points outside the subgroup. *)
+Theorem C12_bp_clear_formula_partial : forall T (F : Fops T) (b : T), good_field F -> sw_law_assoc F (f0 F) b ->
+  forall psi c xabs xneg P,
+  fmul F (fmul F c c) c = f1 F -> aff_on F (f0 F) b P -> aff_on F (f0 F) b (psi P) ->
+  let XP := sgn_aff F xneg (sw_nsmul F (f0 F) (Z.to_nat xabs) P) in
+  bp_clear F (f0 F) psi c xabs xneg P =
+    aff_add_sw F (f0 F) (aff_add_sw F (f0 F) (aff_add_sw F (f0 F) (aff_add_sw F (f0 F)
+      (psi2_aff F c (aff_add_sw F (f0 F) P P))
+      (sgn_aff F xneg (sw_nsmul F (f0 F) (Z.to_nat xabs) (aff_add_sw F (f0 F) XP (psi P)))))
+      (aff_neg_sw F XP)) (aff_neg_sw F (psi P))) (aff_neg_sw F P)
+  /\ aff_on F (f0 F) b (bp_clear F (f0 F) psi c xabs xneg P).
+Proof. exact (fun T F b G H => bp_clear_formula F b G H). Qed.
 
 (* ---- twisted Edwards (curves whose law is complete on the curve points: [te_law_complete],
    provable by C03_te_complete when a is a square and d is not; [te_law_assoc]: associativity) ---- *)
